@@ -638,10 +638,11 @@ std::string opLife(const std::vector<std::string>& w)
     std::vector<std::pair<int, char>> ev; { std::lock_guard<std::mutex> g(LIFE.m); ev = LIFE.ev; }
     for (size_t i = 0; i < cs.size(); ++i) {
         std::string shape; char last = 0;
-        for (auto& e : ev) if (e.first == cs[i].lport) { if (e.second == 'I' && last == 'I') continue; shape.push_back(e.second); last = e.second; }
+        for (auto& e : ev) if (e.first == cs[i].lport || e.first == static_cast<int>(htons(static_cast<uint16_t>(cs[i].lport)))) { if (e.second == 'I' && last == 'I') continue; shape.push_back(e.second); last = e.second; }
         if (i) out += ",";
         out += (shape.empty() ? "-" : shape) + "/" + (cs[i].seen.empty() ? "-" : cs[i].seen);
     }
+    if (getenv("LIFE_DEBUG")) { for (auto& e : ev) fprintf(stderr, "ev %d %c\n", e.first, e.second); for (auto& k : cs) fprintf(stderr, "conn lport %d\n", k.lport); }
     return "conns=" + out + " fds=" + std::to_string(after - base) + " serve=" + std::to_string(ok);
 }
 
